@@ -1355,6 +1355,11 @@ func (i *interpreter) formatValue(fr *frame, verb byte, flags string, arg value)
 			}
 			return b
 		}
+		if verb != 'd' && verb != 'v' {
+			// %x, %o, %b, %U ... of a symbolic integer are not modelled: the
+			// path ends as unsupported rather than with a wrong rendering
+			panic(unsupported("printf %" + string(verb) + " of a symbolic integer"))
+		}
 		return i.formatSymInt(x)
 	case bool:
 		return strBytes(fmt.Sprintf("%"+flags+string(verb), x))
